@@ -28,19 +28,41 @@ Section Names.
     | None => {| m_idx := m_idx m1; m_fields := m_fields m1; m_name := Some ($"Unknown_" ++ index_str (m_idx m1)); m_gen := Some true |}
     | Some _ => m1
     end.
-  (* fix_name_duplicates: the second and later holders of a name get "_<index>" appended *)
-  Definition fix_dups (l : list model) : list model :=
-    snd (fold_left (fun (st : list (str * nat) * list model) m =>
-           let '(cnt, acc) := st in
-           let key := match m_name m with Some n => match n with [] => index_str (m_idx m) | _ => n end | None => index_str (m_idx m) end in
-           let c := match lookup key cnt with Some c => S c | None => 1 end in
-           let cnt := update key c cnt in
-           let c2 := match m_name m with Some n => match lookup n cnt with Some c => c | None => 0 end | None => 0 end in
-           if 1 <? c2
-           then (cnt, acc ++ [{| m_idx := m_idx m; m_fields := m_fields m;
-                                 m_name := Some (match m_name m with Some n => n | None => [] end ++ UNDERSCORE ++ index_str (m_idx m));
-                                 m_gen := Some true |}])
-           else (cnt, acc ++ [m])) l ([], [])).
+  (* fix_name_duplicates (after the D33 repair): the second and later holders of a name get "_<index>" appended, again and
+     again while the result is a name some model of the registry has or was given (taken); the loop ends because names
+     grow: fuel S (length taken) is enough (Proofs/NamesProps.v). *)
+  Definition name_mem (n : str) (l : list str) : bool := existsb (str_eqb n) l.
+  Fixpoint fresh (fuel : nat) (taken : list str) (idx n : str) : str :=
+    match fuel with
+    | O => n
+    | S f => if name_mem n taken then fresh f taken idx (n ++ UNDERSCORE ++ idx) else n
+    end.
+  Definition names_of (l : list model) : list str := flat_map (fun m => match m_name m with Some n => [n] | None => [] end) l.
+  Definition dup_step (st : list (str * nat) * list str * list model) (m : model) : list (str * nat) * list str * list model :=
+    let '(cnt, taken, acc) := st in
+    let key := match m_name m with Some n => match n with [] => index_str (m_idx m) | _ => n end | None => index_str (m_idx m) end in
+    let c := match lookup key cnt with Some c => S c | None => 1 end in
+    let cnt := update key c cnt in
+    let c2 := match m_name m with Some n => match lookup n cnt with Some c => c | None => 0 end | None => 0 end in
+    if 1 <? c2
+    then let idx := index_str (m_idx m) in
+         let n1 := fresh (S (List.length taken)) taken idx (match m_name m with Some n => n | None => [] end ++ UNDERSCORE ++ idx) in
+         (cnt, n1 :: taken, acc ++ [{| m_idx := m_idx m; m_fields := m_fields m; m_name := Some n1; m_gen := Some true |}])
+    else (cnt, taken, acc ++ [m]).
+  Definition fix_dups (l : list model) : list model := snd (fold_left dup_step l ([], names_of l, [])).
+  (* the code before the repair: one suffix, no look at the other names (kept for the refutation) *)
+  Definition dup_step_old (st : list (str * nat) * list model) (m : model) : list (str * nat) * list model :=
+    let '(cnt, acc) := st in
+    let key := match m_name m with Some n => match n with [] => index_str (m_idx m) | _ => n end | None => index_str (m_idx m) end in
+    let c := match lookup key cnt with Some c => S c | None => 1 end in
+    let cnt := update key c cnt in
+    let c2 := match m_name m with Some n => match lookup n cnt with Some c => c | None => 0 end | None => 0 end in
+    if 1 <? c2
+    then (cnt, acc ++ [{| m_idx := m_idx m; m_fields := m_fields m;
+                          m_name := Some (match m_name m with Some n => n | None => [] end ++ UNDERSCORE ++ index_str (m_idx m));
+                          m_gen := Some true |}])
+    else (cnt, acc ++ [m]).
+  Definition fix_dups_old (l : list model) : list model := snd (fold_left dup_step_old l ([], [])).
   Definition generate_names (g : graph) : graph :=
     {| ms := fix_dups (map (name_model g) (ms g)); ps := ps g; nxt := nxt g |}.
 End Names.
